@@ -1,7 +1,11 @@
 """Shared by c03 / c12 / c04: synthesised NP2 recordings, instrumented NP2Converter runs, trace records."""
 import hashlib
+import inspect
 import json
 import shutil
+import signal
+import threading
+from contextlib import contextmanager
 from pathlib import Path
 
 import numpy as np
@@ -13,6 +17,12 @@ UNBOUND = set()   # instrumentation points that the code under test does not hav
 WRAP = 32000      # the sample counter written into the int16 sync column wraps here
 OV = 576
 GAINSETS = [(0.5, 8192), (0.62, 2048), (0.6, 512), (0.62, 8192)]
+# TLC integers are 32 bits wide and its arithmetic raises on overflow: whatever the code under test hands out is clipped to +-I32
+# before it is logged (far beyond every legitimate position / count, small enough for the sums and differences of the trace spec)
+I32 = 10 ** 8
+MAX_EVENTS = 20000  # calls of _ind2save per run when the caller gives no tighter bound
+RUN_LIMIT_S = 180   # wall clock of one conversion (the longest one of the thorough tier takes a few seconds)
+LIB_EXC = (Exception, SystemExit)   # what a call into the code under test may raise: all of it is the run's outcome, not the harness's
 
 
 def shank_map(kind, n, rng, nshank):
@@ -106,14 +116,66 @@ def sha1(p):
     return hashlib.sha1(Path(p).read_bytes()).hexdigest() if Path(p).exists() else None
 
 
+def i32(x):
+    """an integer the code under test handed out (a count, a position, a word of the sync column), as a Python int that TLC can
+    read: values beyond +-I32 are clipped (they stay different from every value the specification expects)"""
+    return int(max(-I32, min(I32, int(x))))
+
+
+def event_cap(ns, w):
+    """upper bound on the calls of _ind2save in one run over ns samples with windows of w samples (two per window, stride w - OV):
+    twice what a terminating loop makes, so that only a loop that does not stop reaches it"""
+    try:
+        stride = max(int(w) - OV, RATIO)
+        return 4 * (int(ns) // stride + 2) + 8
+    except (TypeError, ValueError, OverflowError):
+        return MAX_EVENTS
+
+
+class RunLimit(Exception):
+    """the code under test did not come back: raised INTO it by the harness (call bound of the hook / wall clock) to end the run"""
+
+
+@contextmanager
+def time_limit(seconds, what, max_bytes=None):
+    """bounds a call into the code under test: by wall clock (main thread only; elsewhere the bound on the hook's calls stands
+    alone) and, with max_bytes, by the size any file may grow to meanwhile (a loop that never stops writing ends with OSError EFBIG)"""
+    import resource
+    if threading.current_thread() is not threading.main_thread() or not hasattr(signal, "setitimer"):
+        yield
+        return
+
+    def on_alarm(signum, frame):
+        raise RunLimit(f"{what} did not return within {seconds} s (stopped by the harness)")
+    old = signal.signal(signal.SIGALRM, on_alarm)
+    fsize = resource.getrlimit(resource.RLIMIT_FSIZE)
+    if max_bytes:
+        cap = int(max(max_bytes, 1 << 26))
+        resource.setrlimit(resource.RLIMIT_FSIZE, (cap if fsize[1] == resource.RLIM_INFINITY else min(cap, fsize[1]), fsize[1]))
+    signal.setitimer(signal.ITIMER_REAL, seconds, 1.0)   # and again every second, should the first one be swallowed on the way out
+    try:
+        yield
+    finally:
+        signal.setitimer(signal.ITIMER_REAL, 0)
+        signal.signal(signal.SIGALRM, old)
+        resource.setrlimit(resource.RLIMIT_FSIZE, fsize)
+
+
 class Recorder:
     """wraps NP2Converter._ind2save on one instance: one event per call (the tokens are read off the sync column of
-    what the method returned, i.e. from the data that is about to be written)"""
+    what the method returned, i.e. from the data that is about to be written).
+    The wrapper hands through whatever arguments the method is called with and whatever it returns. When a call cannot be decoded
+    (another signature, a window generator without the attributes read here, a return value that is not a 2-D numeric array) the
+    run is not bound: `undecodable` says why, the caller drops the events and the run is judged on the files it leaves.
+    The only exception the wrapper raises itself is RunLimit, when the window loop calls it more than `max_events` times."""
 
-    def __init__(self, conv, offset=0):
+    def __init__(self, conv, offset=0, max_events=None):
         self.events = []
         self.conv = conv
         self.offset = int(offset)   # the converted range starts at this sample of the file (NP2.1 path): tokens are relative to it
+        self.max_events = int(max_events or MAX_EVENTS)
+        self.calls = 0
+        self.undecodable = None
         self.bound = hasattr(conv, "_ind2save")
         if not self.bound:
             # the private per-window method is not there (renamed / inlined): no per-window observation, the run is judged on the
@@ -121,27 +183,100 @@ class Recorder:
             UNBOUND.add("NP2Converter._ind2save")
             return
         orig = conv._ind2save
+        try:
+            sig = inspect.signature(orig)
+        except LIB_EXC:     # not introspectable: positional convention of the code as verified
+            sig = None
 
-        def wrapped(chunk, chunk_sync, wg, ratio=1, etype="ap"):
-            out = orig(chunk, chunk_sync, wg, ratio=ratio, etype=etype)
-            tok = out[:, -1].astype(np.int64)
-            first = int(round(float(chunk_sync[0, 0]))) - self.offset if chunk_sync.shape[1] else -1
-            tok = tok - self.offset
-            if first >= 0 and int(wg.ns) > WRAP:
-                # the counter in the sync column wraps at WRAP: the multiple of WRAP is resolved with the position the generator
-                # claims (windows are shorter than WRAP), everything else still comes from the data
-                fw = first
-                first = fw + WRAP * int(round((int(wg.iw) * (int(wg.nswin) - int(wg.overlap)) - fw) / WRAP))
-                # rows of one window follow each other by less than WRAP samples (1 for AP, the decimation ratio for LF): unwrap
-                # cumulatively from the window's first sample, so that windows longer than WRAP are read correctly too
-                if tok.size:
-                    steps = np.r_[(tok[0] - fw) % WRAP, np.diff(tok) % WRAP]
-                    tok = first + np.cumsum(steps)
-            tok = tok.tolist()
-            self.events.append({"etype": etype, "iw": int(wg.iw), "nwin": int(wg.nwin), "len": int(chunk.shape[1]),
-                                "first": first, "last": min(first + int(wg.nswin), int(wg.ns)), "tok": tok})
+        def wrapped(*args, **kw):
+            out = orig(*args, **kw)
+            self.calls += 1
+            if self.calls > self.max_events:
+                raise RunLimit(f"the window loop does not stop: _ind2save called {self.calls} times, a terminating loop makes at most "
+                               f"{self.max_events // 2} calls here (stopped by the harness)")
+            if self.undecodable is None:
+                try:
+                    if sig is not None:
+                        ba = sig.bind(*args, **kw)
+                        ba.apply_defaults()
+                        a = ba.arguments
+                    else:
+                        a = dict(zip(("chunk", "chunk_sync", "wg", "ratio", "etype"), args), **kw)
+                    self.events.append(self.decode(out, a["chunk"], a["chunk_sync"], a["wg"], a.get("etype", "ap")))
+                except LIB_EXC as e:
+                    self.undecodable = f"call {self.calls} of _ind2save: {type(e).__name__}: {e}"[:200]
             return out
         conv._ind2save = wrapped
+
+    def decode(self, out, chunk, chunk_sync, wg, etype):
+        if not isinstance(etype, str) or etype not in ("ap", "lf"):
+            raise ValueError(f"etype {etype!r}")
+        out = np.asarray(out)
+        if out.ndim != 2 or out.dtype.kind not in "iuf":
+            raise ValueError(f"returned an array of shape {out.shape} and dtype {out.dtype}")
+        with np.errstate(all="ignore"):
+            tok = np.nan_to_num(out[:, -1].astype(np.float64), nan=-float(I32), posinf=float(I32), neginf=-float(I32))
+            tok = np.clip(tok, -I32, I32).astype(np.int64)
+        chunk_sync = np.asarray(chunk_sync)
+        first = i32(round(float(chunk_sync[0, 0]))) - self.offset if chunk_sync.shape[1] else -1
+        tok = tok - self.offset
+        ns, iw, nwin, nswin, overlap = int(wg.ns), i32(wg.iw), i32(wg.nwin), int(wg.nswin), int(wg.overlap)
+        if first >= 0 and ns > WRAP:
+            # the counter in the sync column wraps at WRAP: the multiple of WRAP is resolved with the position the generator
+            # claims (windows are shorter than WRAP), everything else still comes from the data
+            fw = first
+            first = fw + WRAP * int(round((iw * (nswin - overlap) - fw) / WRAP))
+            # rows of one window follow each other by less than WRAP samples (1 for AP, the decimation ratio for LF): unwrap
+            # cumulatively from the window's first sample, so that windows longer than WRAP are read correctly too
+            if tok.size:
+                steps = np.r_[(tok[0] - fw) % WRAP, np.diff(tok) % WRAP]
+                tok = first + np.cumsum(steps)
+        tok = np.clip(tok, -I32, I32).astype(np.int64).tolist()
+        return {"etype": etype, "iw": iw, "nwin": nwin, "len": i32(np.shape(chunk)[1]),
+                "first": i32(first), "last": i32(min(first + nswin, ns)), "tok": tok}
+
+    def result(self):
+        """the events of the run, or none at all when a call could not be decoded (the run is then judged as a black box)"""
+        if self.undecodable is not None:
+            UNBOUND.add("NP2Converter._ind2save: " + self.undecodable)
+            return []
+        return self.events
+
+
+def norm_status(status, what="process()"):
+    """what process() returned -> (code, note). 1 (any scalar that equals 1) is 1, other integers stay, None is None; anything else
+    (a string, an array, NaN, a number that is not an integer) is not a status: code -7 and a note that says what it was"""
+    if status is None or (isinstance(status, str) and status == "skipped"):
+        return status, ""
+    try:
+        note = f"{what} returned {status!r:.60} ({type(status).__name__})"
+    except LIB_EXC:
+        note = f"{what} returned an object of type {type(status).__name__}"
+    try:
+        if np.ndim(status) == 0 and not isinstance(status, (str, bytes)):
+            if bool(status == 1):
+                return 1, ""
+            if isinstance(status, (int, np.integer)) and not isinstance(status, (bool, np.bool_)):
+                return i32(status), ""
+    except LIB_EXC:
+        pass
+    return -7, note
+
+
+def tlc_safe(obj):
+    """a trace record as TLC's JSON reader takes it: NumPy scalars as Python ones, integers clipped to +-I32, strings without the
+    characters that end a TLA+ string or split a verdict line. A float is never part of a record: machinery error."""
+    if isinstance(obj, (bool, np.bool_)):
+        return bool(obj)
+    if isinstance(obj, (int, np.integer)):
+        return i32(obj)
+    if isinstance(obj, str):
+        return "".join(c if 32 <= ord(c) < 127 and c not in '"\\|' else ("'" if c == '"' else "/" if c in "\\|" else " ") for c in obj)
+    if isinstance(obj, dict):
+        return {str(k): tlc_safe(v) for k, v in obj.items()}
+    if isinstance(obj, (list, tuple)):
+        return [tlc_safe(v) for v in obj]
+    raise TypeError(f"trace record holds {obj!r:.60} ({type(obj).__name__})")
 
 
 def compress_tokens(tok, stride):
@@ -152,89 +287,96 @@ def compress_tokens(tok, stride):
     return [int(tok[0]), len(tok), [] if reg else [int(x) for x in tok]]
 
 
-def convert(ap_file, w, **kw):
-    """one real NP2Converter run (no compression, no post-check unless asked); returns (status, events, conv, exc)"""
-    import neuropixel
-    exc, status, conv, events = "", None, None, []
+def close_reader(conv):
     try:
-        # (constructor and init_params are code under test too: when they raise, the run is abnormal, not the harness broken)
-        conv = neuropixel.NP2Converter(ap_file, post_check=kw.get("post_check", False), compress=kw.get("compress", False),
-                                       delete_original=kw.get("delete_original", False))
-        conv.init_params(nwindow=w)
-        rec = Recorder(conv)
-        events = rec.events
-        status = conv.process(overwrite=kw.get("overwrite", False))
-    except Exception as e:  # noqa
+        conv.sr.close()
+    except LIB_EXC:
+        pass
+
+
+def convert(ap_file, w, **kw):
+    """one real NP2Converter run (no compression, no post-check unless asked); returns (status, events, conv, exc).
+    status: 1, another integer, None (nothing returned / raised), -7 (not a status: `exc` says what it was)"""
+    exc, status, conv, events, rec = "", None, None, [], None
+    try:
+        # (import, constructor and init_params are code under test too: when they raise, the run is abnormal, not the harness broken)
+        with time_limit(RUN_LIMIT_S, "NP2Converter run", kw.get("max_bytes")):
+            import neuropixel
+            conv = neuropixel.NP2Converter(ap_file, post_check=kw.get("post_check", False), compress=kw.get("compress", False),
+                                           delete_original=kw.get("delete_original", False))
+            conv.init_params(nwindow=w)
+            rec = Recorder(conv, max_events=kw.get("max_events"))
+            status = conv.process(overwrite=kw.get("overwrite", False))
+    except LIB_EXC as e:  # noqa
         exc = f"{type(e).__name__}: {e}"
     finally:
-        try:
-            conv.sr.close()
-        except Exception:
-            pass
-    return status, events, conv, exc
+        close_reader(conv)
+    events = rec.result() if rec is not None else []
+    status, note = norm_status(status)
+    return status, events, conv, exc or note
 
 
 def convert_reuse(ap_file, w1, w2, **kw):
     """the same converter object used twice: process() with window w1, then init_params(nwindow=w2) and
     process(overwrite=True). Returns what `convert` returns, for the SECOND run."""
-    import neuropixel
-    exc, status, events, conv = "", None, [], None
+    exc, status, events, conv, rec = "", None, [], None, None
     try:
-        conv = neuropixel.NP2Converter(ap_file, post_check=kw.get("post_check", False), compress=False, delete_original=False)
-        conv.init_params(nwindow=w1)
-        st1 = conv.process()
-        if st1 != 1:
-            return st1, [], conv, f"first run returned {st1}"
-        conv.init_params(nwindow=w2)
-        rec = Recorder(conv)
-        status = conv.process(overwrite=True)
-        events = rec.events
-    except Exception as e:  # noqa
+        with time_limit(2 * RUN_LIMIT_S, "NP2Converter run (twice)", kw.get("max_bytes")):
+            import neuropixel
+            conv = neuropixel.NP2Converter(ap_file, post_check=kw.get("post_check", False), compress=False, delete_original=False)
+            conv.init_params(nwindow=w1)
+            st1, note = norm_status(conv.process(), "the first process()")
+            if st1 != 1:
+                return st1, [], conv, note or f"first run returned {st1}"
+            conv.init_params(nwindow=w2)
+            rec = Recorder(conv, max_events=kw.get("max_events"))
+            status = conv.process(overwrite=True)
+    except LIB_EXC as e:  # noqa
         exc = f"{type(e).__name__}: {e}"
     finally:
-        try:
-            conv.sr.close()
-        except Exception:
-            pass
-    return status, events, conv, exc
+        close_reader(conv)
+    events = rec.result() if rec is not None else []
+    status, note = norm_status(status)
+    return status, events, conv, exc or note
 
 
-def convert_opts(ap_file, init=None, *, compress=False, post_check=False, overwrite=False, decline_first=False, np21=None, twice=False):
+def convert_opts(ap_file, init=None, *, compress=False, post_check=False, overwrite=False, decline_first=False, np21=None, twice=False,
+                 max_events=None, max_bytes=None):
     """one real NP2Converter run with arbitrary `init_params` keywords (`init` None: init_params is not called, the defaults the
     constructor set stand). decline_first: process() is first called without overwrite on the same object (output exists: it
     declines), then process(overwrite=True) is the observed run. np21: keyword arguments (offset / assert_shanks) for a direct
     call of the NP2.1 path, which process() does not forward; that method is private: when it is not there the run is skipped
     (status 'skipped') and the name is recorded in UNBOUND. Returns (status, events, conv, exc, first_status)."""
-    import neuropixel
-    exc, status, events, first_status, conv = "", None, [], None, None
+    exc, status, events, first_status, conv, rec = "", None, [], None, None, None
     try:
-        conv = neuropixel.NP2Converter(ap_file, post_check=post_check, compress=compress, delete_original=False)
-        if init is not None:
-            conv.init_params(**init)
-        if decline_first or twice:
-            # decline_first: the output exists, the first call declines; twice: the first call converts (and, with compress, leaves
-            # the object pointing at what it compressed); the observed run is the same object's process(overwrite=True)
-            first_status = conv.process()
-            overwrite = True
-        rec = Recorder(conv, offset=(np21 or {}).get("offset", 0))
-        events = rec.events
-        if np21 is not None:
-            fn = getattr(conv, "_process_NP21", None)
-            if fn is None:
-                UNBOUND.add("NP2Converter._process_NP21")
-                status = "skipped"
+        with time_limit(2 * RUN_LIMIT_S, "NP2Converter run", max_bytes):
+            import neuropixel
+            conv = neuropixel.NP2Converter(ap_file, post_check=post_check, compress=compress, delete_original=False)
+            if init is not None:
+                conv.init_params(**init)
+            if decline_first or twice:
+                # decline_first: the output exists, the first call declines; twice: the first call converts (and, with compress, leaves
+                # the object pointing at what it compressed); the observed run is the same object's process(overwrite=True)
+                first_status = conv.process()
+                overwrite = True
+            rec = Recorder(conv, offset=(np21 or {}).get("offset", 0), max_events=max_events)
+            if np21 is not None:
+                fn = getattr(conv, "_process_NP21", None)
+                if fn is None:
+                    UNBOUND.add("NP2Converter._process_NP21")
+                    status = "skipped"
+                else:
+                    status = fn(overwrite=overwrite, **np21)
             else:
-                status = fn(overwrite=overwrite, **np21)
-        else:
-            status = conv.process(overwrite=overwrite)
-    except Exception as e:  # noqa
+                status = conv.process(overwrite=overwrite)
+    except LIB_EXC as e:  # noqa
         exc = f"{type(e).__name__}: {e}"
     finally:
-        try:
-            conv.sr.close()
-        except Exception:
-            pass
-    return status, events, conv, exc, first_status
+        close_reader(conv)
+    events = rec.result() if rec is not None else []
+    status, note = norm_status(status)
+    first_status, note1 = norm_status(first_status, "the first process()")
+    return status, events, conv, exc or note or note1, first_status
 
 
 def read_int16(path):
